@@ -7,7 +7,7 @@
    Other tags (the document itself, for the implementation side) are ignored. *)
 From Coq Require Import List NArith Bool String.
 Import ListNotations.
-Require Import Show MetaBase MetaShow EmailModel.
+Require Import Show MetaBase MetaShow EmailModel EmailText.
 Open Scope N_scope.
 
 Record epstate := { ep_items : list item; ep_name : list N; ep_payload : payload }.
@@ -35,5 +35,17 @@ Definition show_dicts (d : dicts) : list N :=
 Definition obs_parse (args : list (list N)) : list N :=
   let st := ep_parse args in show_dicts (post_email (ep_items st) (ep_payload st)).
 
+(* e.lines doc -> what [parse_lines] says the email package delivers for a str document of the simple "Name: value" shape:
+   name=value;...|body  (strings as code points), or "?" when the document is not of that shape (then nothing is claimed) *)
+Definition obs_lines (doc : list N) : list N :=
+  match parse_lines doc with
+  | None => [63]
+  | Some (items, p) =>
+      join [59] (map (fun i => show_s (i_name i) ++ [61] ++ show_s (i_val i)) items) ++ bar ++
+      match p with POk b => show_s b | PErr _ => [63] end
+  end.
+
 Definition run_email (cmd : list N) (args : list (list N)) : option (list N) :=
-  if seqb cmd (asc "e.parse") then Some (obs_parse args) else None.
+  if seqb cmd (asc "e.parse") then Some (obs_parse args)
+  else if seqb cmd (asc "e.lines") then Some (obs_lines (nth_str 0 args))
+  else None.
